@@ -121,14 +121,13 @@ func (r *Run) RunChildren(spec ChildSpec) {
 	}
 	type rng struct{ a, b uint64 }
 	work := make(chan rng, slices)
-	per := total / uint64(slices)
 	for i := 0; i < slices; i++ {
-		a := spec.From + uint64(i)*per
-		b := a + per
-		if i == slices-1 {
-			b = spec.To
+		// even split: slice i is [i*total/slices, (i+1)*total/slices)
+		a := spec.From + uint64(i)*total/uint64(slices)
+		b := spec.From + uint64(i+1)*total/uint64(slices)
+		if a < b {
+			work <- rng{a, b}
 		}
-		work <- rng{a, b}
 	}
 	close(work)
 	var wg sync.WaitGroup
